@@ -177,7 +177,10 @@ def build(w, ctx):
             return V.ForEach(cs[0])
         return V.ForEach(tuple(cs) if w.get('tuple') else cs)
     if k == 'Composite':
-        return V.Composite([build(c, ctx) for c in w['cs']])
+        cs = [build(c, ctx) for c in w['cs']]
+        if w.get('direct') and len(cs) == 1:
+            return V.Composite(cs[0])       # a Composite handed over directly: iterating it yields its children
+        return V.Composite(cs)
     raise ValueError('unknown validator ' + k)
 
 
@@ -306,6 +309,25 @@ def run_case(c):
                 tb.q_str(m)
         measure(w, pyval(c['v'], ctx), tb, ctx)
         return {'out': out, 'outp': outp, 'oracles': tb.t}
+    if kind == 'validate_seq':
+        # ONE instance for the whole sequence of values (validate and validate_param alternate on it)
+        w = c['w']
+        ctx.enum_src = first_enum(w)
+        if ctx.enum_src is not None:
+            ctx.enum_cls = make_enum(ctx.enum_src, ctx)
+        val = build(w, ctx)
+        tb = Tables(ctx)
+        if ctx.enum_cls is not None:
+            for m in ctx.enum_cls:
+                tb.q_str(m)
+        outs, outps = [], []
+        for vj in c['vs']:
+            v = pyval(vj, ctx)
+            outs.append(outcome(lambda: val.validate(v), ctx))
+            v2 = pyval(vj, ctx)
+            outps.append(outcome(lambda: val.validate_param(v2, 'p'), ctx))
+            measure(w, pyval(vj, ctx), tb, ctx)
+        return {'outs': outs, 'outps': outps, 'oracles': tb.t}
     if kind == 'convert':
         from pedantic.decorators.fn_deco_validate.convert_value import convert_value
         v = pyval(c['v'], ctx)
